@@ -587,11 +587,83 @@ def show(v: Any) -> Any:
 # judges
 
 
+# ------------------------------------------------------------------------------------------------
+# scalar equations whose candidate roots must be CHECKED: radicals (squaring adds roots) and poles (clearing a
+# denominator adds its zeros).  Plain SymPy objects, rational coefficients, judged at 50 digits.
+
+
+@st.composite
+def scheck_case(draw: Any) -> Any:
+    shape = draw(st.sampled_from(("radical", "radical", "pole", "positive-unknown")))
+    r = lambda lo=-6, hi=6: draw(st.integers(lo, hi))  # noqa: E731  pylint: disable=unnecessary-lambda-assignment
+    nz = lambda: draw(st.integers(-5, 5).filter(lambda x: x != 0))  # noqa: E731  pylint: disable=unnecessary-lambda-assignment
+    if shape == "radical":
+        # sqrt(a x + b) = c x + d built from a chosen true root x0 >= ... : a x0 + b = (c x0 + d)^2 with c x0 + d >= 0
+        x0, c, d = r(-4, 6), nz(), r(-4, 4)
+        a = nz()
+        t = c * x0 + d
+        if t < 0:
+            d, t = d - 2 * t, -t  # make the right side non-negative at x0
+        b = t * t - a * x0
+        return {"kind": "scheck", "shape": shape, "coef": [a, b, c, d], "form": draw(st.sampled_from(("eq", "eq", "expr")))}
+    if shape == "pole":
+        # A/(x - p) = B/((x - p)(x - q)): only x = q + B/A is a solution; x = p is the pole
+        return {"kind": "scheck", "shape": shape, "coef": [nz(), nz(), r(), r()], "form": "eq"}
+    # (x - p)(x + q) = 0 with p, q > 0 and the unknown declared positive: only x = p qualifies
+    return {"kind": "scheck", "shape": shape, "coef": [draw(st.integers(1, 6)), draw(st.integers(1, 6))], "form": draw(st.sampled_from(("eq", "expr")))}
+
+
+def judge_scheck(case: dict[str, Any]) -> list[tuple[str, str]]:
+    import sympy
+    from symplyphysics.core.experimental.solvers import solve_for_scalar
+    shape, co = case["shape"], case["coef"]
+    x = sympy.Symbol("x", positive=True) if shape == "positive-unknown" else sympy.Symbol("x", real=True)
+    if shape == "radical":
+        a, b, c, d = co
+        lhs, rhs = sympy.sqrt(a * x + b), c * x + d
+    elif shape == "pole":
+        A, B, p_, q_ = co
+        if p_ == q_:
+            return [("__discard__", "degenerate pole case")]
+        lhs, rhs = sympy.Rational(A) / (x - p_), sympy.Rational(B) / ((x - p_) * (x - q_))
+    else:
+        p_, q_ = co
+        lhs, rhs = sympy.expand((x - p_) * (x + q_)), sympy.S.Zero
+    arg: Any = sympy.Eq(lhs, rhs, evaluate=False) if case["form"] == "eq" else lhs - rhs
+    try:
+        ret = solve_for_scalar(arg, x)
+    except _Hang:
+        raise
+    except Exception as exc:  # pylint: disable=broad-except
+        return [(f"__noanswer_{type(exc).__name__}__", "")]
+    if not isinstance(ret, list) or not ret or not all(isinstance(e, sympy.Eq) for e in ret):
+        return [("scalar-result-not-Eq", f"solve_for_scalar({arg}, x) returned {ret!r}: not a list of equations")]
+    out: list[tuple[str, str]] = []
+    for eq in ret:
+        if eq.lhs != x or eq.rhs.free_symbols:
+            out.append(("scalar-lhs", f"returned {eq} for {arg}"))
+            continue
+        v = eq.rhs
+        try:
+            res = sympy.N((lhs - rhs).subs(x, v), 50)
+        except Exception as exc:  # pylint: disable=broad-except
+            res = sympy.nan
+            _ = exc
+        if res.has(sympy.nan, sympy.zoo, sympy.oo, -sympy.oo) or not res.is_number:
+            out.append((f"scalar-residual:{shape}", f"solve_for_scalar({arg}, x) returned {eq}, where the equation is undefined (residual {res})"))
+        elif abs(res) > sympy.Float("1e-30") * (1 + abs(sympy.N(v, 50))**2):
+            out.append((f"scalar-residual:{shape}", f"solve_for_scalar({arg}, x) returned {eq}; residual {sympy.N(res, 12)}: the returned value does not satisfy the equation"))
+        elif shape == "positive-unknown" and not (sympy.N(v, 50) > 0):
+            out.append((f"scalar-residual:{shape}", f"solve_for_scalar({arg}, x) returned {eq} for an unknown declared positive"))
+    out.append(("__scalar_answered__", ""))
+    return out
+
+
 def judge(case: dict[str, Any]) -> list[tuple[str, str]]:
     _guard.install(_alarm)
     _guard.arm(HANG_S)
     try:
-        fn = {"vec": judge_vec, "scalar": judge_scalar, "apply": judge_apply}[case["kind"]]
+        fn = {"vec": judge_vec, "scalar": judge_scalar, "apply": judge_apply, "scheck": judge_scheck}[case["kind"]]
         return fn(case)
     except _Hang:
         return [("__inconclusive__", "hang guard expired")]
@@ -952,6 +1024,8 @@ def classify(case: dict[str, Any]) -> tuple[bool, list[str]]:
         if any(t == ["scale", ["num", "-1/1"], ["V", case["u"]]] or t == ["neg", ["V", case["u"]]] for t in case["terms"]):
             labels.append("vec:coefficient-minus-one")
         return (nterms >= 3 and nonnum) or len(info["mono"]) >= 2, labels
+    if kind == "scheck":
+        return True, labels + [f"scheck:shape={case['shape']}", f"scheck:form={case['form']}"]
     if kind == "scalar":
         ops = ops_of(case["lhs"], set()) | (ops_of(case["rhs"], set()) if case["rhs"] else set())
         labels += [f"scalar:shape={case['shape']}", f"scalar:target={case['target']}",
@@ -968,7 +1042,7 @@ def classify(case: dict[str, Any]) -> tuple[bool, list[str]]:
 
 def _shard(task: dict[str, Any]) -> Recorder:
     rec = Recorder()
-    strat = {"vec": vec_case, "scalar": scalar_case, "apply": apply_case}[task["kind"]]()
+    strat = {"vec": vec_case, "scalar": scalar_case, "apply": apply_case, "scheck": scheck_case}[task["kind"]]()
 
     def body(case: dict[str, Any]) -> None:
         res = judge(case)
@@ -985,6 +1059,9 @@ def _shard(task: dict[str, Any]) -> Recorder:
                 labels.append(case["kind"] + ":" + key.strip("_") + (sub if "noanswer" in key or "scalar_answered" in key else ""))
             else:
                 rec.violation(key, what, case)
+        if case["kind"] == "scheck":
+            sub = f":{case['shape']}"
+            labels = [l if not l.startswith("scheck:noanswer") and not l.startswith("scheck:scalar_answered") else l + sub for l in labels]
         desc = {k: v for k, v in case.items() if k != "assign"}
         rec.case(desc, nontrivial=nt, labels=labels)
 
@@ -993,7 +1070,8 @@ def _shard(task: dict[str, Any]) -> Recorder:
 
 
 def run(ctx: Ctx) -> None:
-    counts = {"vec": ctx.pick(3600, 42000), "scalar": ctx.pick(1000, 12000), "apply": ctx.pick(600, 6000)}
+    counts = {"vec": ctx.pick(3600, 42000), "scalar": ctx.pick(1000, 12000), "apply": ctx.pick(600, 6000),
+        "scheck": ctx.pick(320, 4000)}
     shards = ctx.pick(16, 48)
     import symplyphysics.core.experimental.solvers  # noqa: F401  pylint: disable=unused-import
     tasks = []
